@@ -100,6 +100,22 @@ Fixpoint infer_loop (na : N) (os : list order) (st co : bool) : result dt :=
   end.
 Definition infer_type (s : state) : result dt := infer_loop (n_alt s) (ords s) true true.
 
+(* the data type a multiset of votes has by definition (specification, no loop):
+   strict iff every class of every vote is a singleton, complete iff every vote ranks as many
+   alternatives as occur in the multiset *)
+Definition strict_o (o : order) : bool := max_class_len o =? 1.
+Definition complete_o (na : N) (o : order) : bool := N.eqb (N.of_nat (ballot_size o)) na.
+Definition type_code (strict complete : bool) : dt :=
+  if strict then (if complete then Soc else Soi) else (if complete then Toc else Toi).
+Fixpoint dedup (l : list N) : list N :=
+  match l with
+  | [] => []
+  | x :: r => if existsb (N.eqb x) r then dedup r else x :: dedup r
+  end.
+Definition spec_type (ms : list order) : dt :=
+  type_code (forallb strict_o ms)
+            (forallb (complete_o (N.of_nat (length (dedup (concat (concat ms)))))) ms).
+
 (* self.data_type = self.infer_type(): when infer_type raises, the exception leaves every method
    with all other fields already updated and data_type unchanged *)
 Definition set_type (s : state) : state :=
@@ -211,11 +227,6 @@ Definition is_complete (s : state) : result bool :=
   rmap (fun m => N.eqb (N.of_nat m) (n_alt s)) (smallest_ballot s).
 
 (* ---- sanity.orders ---- *)
-Fixpoint dedup (l : list N) : list N :=
-  match l with
-  | [] => []
-  | x :: r => if existsb (N.eqb x) r then dedup r else x :: dedup r
-  end.
 Fixpoint nodup_orders (l : list order) : bool :=
   match l with
   | [] => true
